@@ -89,6 +89,9 @@ def front_check(PROP, THEOREMS, tier, seed, gen_kw=None, extra_modules=("Model.A
                 cls = None
                 if exp["uses_include_scope"]:
                     alt = F.expected(stmts, files, ninja_include=False)
+                    if alt["error"] == "unpredictable":
+                        stats["unpredicted"] += 1       # under n2's include scoping (F11) the oracle cannot say: not judged
+                        continue
                     if kind == "ok" and not alt["error"] and F.compare_expected(alt, F.parse_dump(r)) is None:
                         cls = "include-binding-not-exported"
                     elif kind == "err" and alt["error"] and alt["error"].encode() in unhexs(r[4:]):
@@ -102,6 +105,9 @@ def front_check(PROP, THEOREMS, tier, seed, gen_kw=None, extra_modules=("Model.A
             cls = None
             if exp["uses_include_scope"]:
                 alt = F.expected(stmts, files, ninja_include=False)
+                if alt["error"] == "unpredictable":
+                    stats["unpredicted"] += 1
+                    continue
                 if alt["error"] and alt["error"] in msg:
                     cls = "include-binding-not-exported"
             run.report_failure(cls, "a well-formed manifest was rejected: %s" % msg[:200], where)
